@@ -187,6 +187,7 @@ type Report struct {
 	BlockSites  []string `json:"block_sites"`
 	GoSites     []string `json:"go_sites"`
 	SelectSites int      `json:"select_sites"`
+	OnceSites   int      `json:"once_sites"`
 	SizeSites   []string `json:"lru_size_sites"`
 	ProbeSites  []string `json:"probe_sites,omitempty"`
 	Files       int      `json:"files_rewritten"`
@@ -616,6 +617,28 @@ func Generate(repo, dir string) (string, *Report, error) {
 					probe(fset.Position(x.Colon).Offset+1, fset.Position(x.Colon).Line)
 				}
 			case *ast.CallExpr:
+				// once.Do(f): whoever runs f holds the Once's internal mutex, and a
+				// second caller blocks on it for real. f therefore runs as if
+				// under a lock of the code under test: the task is not parked
+				// inside it (its client calls do not yield).
+				if sel, ok := x.Fun.(*ast.SelectorExpr); ok && sel.Sel.Name == "Do" && len(x.Args) == 1 {
+					onceish := false
+					switch r := sel.X.(type) {
+					case *ast.Ident:
+						onceish = strings.Contains(strings.ToLower(r.Name), "once")
+					case *ast.SelectorExpr:
+						onceish = strings.Contains(strings.ToLower(r.Sel.Name), "once")
+					}
+					if onceish {
+						if fl, ok := x.Args[0].(*ast.FuncLit); ok {
+							edits = append(edits, edit{fset.Position(fl.Body.Lbrace).Offset + 1, " verifhook.L(); defer verifhook.U();"})
+						} else {
+							edits = append(edits, edit{fset.Position(x.Args[0].Pos()).Offset, "func() { verifhook.L(); defer verifhook.U(); ("},
+								edit{fset.Position(x.Args[0].End()).Offset, ")() }"})
+						}
+						rep.OnceSites++
+					}
+				}
 				if !isPypi || len(x.Args) != 1 {
 					return true
 				}
